@@ -803,11 +803,14 @@ func VerifC04Chain1()  { scenario(Cfg{Kids: true, Next: true, NChildren: 2}, 1) 
 func VerifC04Chain2()  { scenario(Cfg{Kids: true, Next: true, NChildren: 2}, 2) }
 func VerifC04Weak1()   { scenario(Cfg{Kids: true, Wk: true, Wopt: true, NChildren: 2}, 1) }
 func VerifC04Weak2()   { scenario(Cfg{Kids: true, Wk: true, NChildren: 2}, 2) }
-func VerifC04Lim1()    { scenario(Cfg{Kids: true, Lim: true, NChildren: 2}, 1) }
-func VerifC04Lim2()    { scenario(Cfg{Kids: true, Lim: true, NChildren: 2}, 2) }
-func VerifC04Maps1()   { scenario(Cfg{Kids: true, Byk: true, Byv: true, NChildren: 2}, 1) }
-func VerifC04Maps2()   { scenario(Cfg{Byk: true, Byv: true, NChildren: 1}, 2) }
-func VerifC04Chain3()  { scenario(Cfg{Kids: true, Next: true, NChildren: 3}, 1) }
+
+// VerifC04ChainWeak: weak references to rows that are dropped in different passes of the garbage collection.
+func VerifC04ChainWeak() { scenario(Cfg{Kids: true, Next: true, Wk: true, NChildren: 2}, 2) }
+func VerifC04Lim1()      { scenario(Cfg{Kids: true, Lim: true, NChildren: 2}, 1) }
+func VerifC04Lim2()      { scenario(Cfg{Kids: true, Lim: true, NChildren: 2}, 2) }
+func VerifC04Maps1()     { scenario(Cfg{Kids: true, Byk: true, Byv: true, NChildren: 2}, 1) }
+func VerifC04Maps2()     { scenario(Cfg{Byk: true, Byv: true, NChildren: 1}, 2) }
+func VerifC04Chain3()    { scenario(Cfg{Kids: true, Next: true, NChildren: 3}, 1) }
 
 // Dump prints the database contents natively (diagnostics for replays).
 func Dump(db database.Database) {
